@@ -67,9 +67,10 @@ Section Parse.
   Definition dec_oid' (t : tlv) : option (list N) :=
     match t with Prim Univ 6 c => oid_of_content c | _ => None end.
 
+  (* asn1.Unmarshal returns trailing bytes instead of rejecting them, and the callers (as in crypto/x509) drop them *)
   Definition parse_ec_private_key (outer_curve : option keyalg) (b : bytes) : option privkey :=
-    match parse_all b with
-    | Some (Cons Univ 16 (Prim Univ 2 v :: Prim Univ 4 sc :: rest)) =>
+    match parse b with
+    | Some (Cons Univ 16 (Prim Univ 2 v :: Prim Univ 4 sc :: rest), _) =>
       match int_of_content v with
       | Some 1%Z =>
         let inner_curve :=
@@ -95,8 +96,8 @@ Section Parse.
     end.
 
   Definition parse_pkcs8 (b : bytes) : option privkey :=
-    match parse_all b with
-    | Some (Cons Univ 16 [Prim Univ 2 v; Cons Univ 16 (alg :: params); Prim Univ 4 body]) =>
+    match parse b with
+    | Some (Cons Univ 16 [Prim Univ 2 v; Cons Univ 16 (alg :: params); Prim Univ 4 body], _) =>
       match dec_oid' alg with
       | Some a =>
         if oid_eqb a oid_rsa_encryption then
